@@ -2,6 +2,7 @@ import AgdbColl.Model.MultiMapOps
 import AgdbColl.Lemmas.Inv
 import AgdbColl.Lemmas.Values
 import AgdbColl.Lemmas.IndexInv
+import AgdbColl.Lemmas.Refine2
 /-!
 # C19 — every query terminates after any history (hashed collections)
 
@@ -168,6 +169,79 @@ theorem C19_values_terminates (h : K → Nat) : C19_values_terminates_statement 
   · intro p hp; simp only [MM.cap] at h0; omega
   · simp only [homePos, h0, if_false]
     exact hn.at key
+
+/-! ## Functional refinement: the slot table is a multiset of pairs
+
+The abstract state is the family of counts `cnt P slots` for predicates `P` that hold only of
+`Valid` slots (`VP P`); `cnt (pairP k v)` is the multiplicity of the pair `(k, v)`, `cnt (keyP k)`
+the number of pairs of key `k`, `countValid` the total. -/
+
+/-- the probe-chain invariant holds on every state of an index multimap -/
+theorem C19_index_chain (h : K → Nat) (m : MM K T) (hr : ReachableIndex h m) : Chain h m.slots := by
+  induction hr with
+  | init => intro p hp; simp [MM.new] at hp
+  | @step m0 m1 F op hr0 hnior hF hok ih =>
+    have hi := C19_inv_reachable h m0 (reachableIndex_reachable h m0 hr0)
+    cases op with
+    | insert k v =>
+      exact (insert_refine h F m0 m1 k v hi ih (by simpa [opFuel, fuelBound] using hF) hok).1
+    | insertOrReplace k p v => exact absurd rfl (hnior k p v)
+    | removeKey k =>
+      exact (removeKey_refine h F m0 m1 k hi ih (by simpa [opFuel, fuelBound] using hF) hok).1
+    | removeValue k v => exact (removeValue_refine h F m0 m1 k v hi ih hok).1
+    | reserve c => exact (reserve_refine h F m0 m1 c hi ih hok).1
+
+/-- what an operation does to the multiset of pairs (count of the pairs satisfying `P`) -/
+def opEffect (op : MOp K T) (P : Slot K T → Bool) (before after : Nat) : Prop :=
+  match op with
+  | .insert k v => after = before + (if P ⟨.valid, k, v⟩ = true then 1 else 0)
+  | .removeValue k v => after = before ∨ after + (if P ⟨.valid, k, v⟩ = true then 1 else 0) = before
+  | .removeKey k => (∀ sl, P sl = true → sl.key ≠ k) → after = before
+  | .reserve _ => after = before
+  | .insertOrReplace _ _ _ => True
+
+/-- full refinement statement: additionally `remove_key` leaves no pair of the key, `remove_value`
+removes a pair whenever one is stored, `values` returns exactly the values of the key with
+multiplicity, and `insert_or_replace` replaces a matching pair or adds one (alias maps) -/
+def MultiMap_refines_statement (h : K → Nat) : Prop :=
+  ∀ m : MM K T, Reachable h m → ∀ (op : MOp K T) (F : Nat) (m' : MM K T), opFuel m op ≤ F →
+    applyOpW false h F m op = .ok m' →
+    (∀ k, op = .removeKey k → cnt (keyP k) m'.slots = 0) ∧
+    (∀ k v, op = .removeValue k v → 0 < cnt (pairP k v) m.slots →
+      cnt (pairP k v) m'.slots + 1 = cnt (pairP k v) m.slots) ∧
+    (∀ k vs, values h F m k = .ok vs → ∀ v, vs.count v = cnt (pairP k v) m.slots)
+
+/-- **MultiMap_refines (partial)**: for every state of an index multimap (any history of
+`insert` / `remove_key` / `remove_value` / `reserve`, arbitrary hash function):
+`len` is the number of `Valid` slots; `insert` adds exactly the pair; `remove_value` removes
+nothing or exactly one pair `(key, value)`; `remove_key` changes no pair of another key; `reserve`
+(and every `rehash`, grow or shrink, inside the other operations) changes no count at all;
+`value` / `contains` answer `some v` only for a stored pair `(key, v)` and `none` only if no pair of
+the key is stored. Missing for the full statement (`MultiMap_refines_statement`): completeness of
+the two removal loops, multiplicities of `values`, and `insert_or_replace`. -/
+theorem MultiMap_refines_partial (h : K → Nat) (m : MM K T) (hr : ReachableIndex h m) :
+    m.len = countValid m.slots ∧
+    (∀ (op : MOp K T) (F : Nat) (m' : MM K T), opFuel m op ≤ F → applyOpW false h F m op = .ok m' →
+      ∀ P : Slot K T → Bool, VP P → opEffect op P (cnt P m.slots) (cnt P m'.slots)) ∧
+    (∀ key F r, value h F m key = .ok r →
+      (∀ v, r = some v → 0 < cnt (pairP key v) m.slots) ∧ (r = none → cnt (keyP key) m.slots = 0)) := by
+  have hi := C19_inv_reachable h m (reachableIndex_reachable h m hr)
+  have hc := C19_index_chain h m hr
+  refine ⟨hi.1, ?_, ?_⟩
+  · intro op F m' hF hok P hP
+    cases op with
+    | insert k v =>
+      exact (insert_refine h F m m' k v hi hc (by simpa [opFuel, fuelBound] using hF) hok).2 P hP
+    | insertOrReplace k p v => trivial
+    | removeKey k =>
+      exact (removeKey_refine h F m m' k hi hc (by simpa [opFuel, fuelBound] using hF) hok).2 P hP
+    | removeValue k v =>
+      rcases (removeValue_refine h F m m' k v hi hc hok).2 with a | a
+      · exact Or.inl (a P hP)
+      · exact Or.inr (a P hP)
+    | reserve c => exact (reserve_refine h F m m' c hi hc hok).2 P hP
+  · intro key F r hv
+    exact value_refine h F m key hc r hv
 
 /-- every history runs to completion (so `Reachable` is the closure over ALL histories) -/
 theorem C19_every_history_runs (h : K → Nat) (ops : List (MOp K T)) :
